@@ -25,7 +25,7 @@ TECHNIQUE = 'runtime monitoring + fault injection: SIGKILL at every SQL statemen
             'mutating syscall on db/journal, then CaseReader vs. uninterrupted reference run'
 RULE = ('kill points = for each scenario: every (pre|post)-(execute|commit) index of the recorder connections, '
         'every N-th entry of each mutating syscall (pwrite64, fdatasync, unlink, openat, ftruncate ...) on the '
-        'recorder files and their journals (quick: every 5th), plus kills at random Python call counts / timer '
+        'recorder files and their journals (quick: every 8th), plus kills at random Python call counts / timer '
         'instants; distinct = distinct (scenario, mechanism, index); non-trivial = the kill landed after the '
         'recorder started and the child really died by SIGKILL')
 LEVEL_TEXT = ('complete enumeration of statement/commit boundaries and (thorough) of mutating-syscall entries on the '
@@ -45,7 +45,7 @@ REQUIRED_COUNTERS = ['obs:kill:stmt:pre-exec', 'obs:kill:stmt:post-exec', 'obs:k
                      'obs:kill:stmt:post-commit', 'obs:kill:sys:pwrite64', 'obs:kill:sys:fdatasync',
                      'obs:kill:pycall', 'obs:file_opened', 'obs:hot_journal_at_open', 'obs:mid_transaction_kill',
                      'obs:proper_nonempty_prefix', 'obs:cases_loaded', 'obs:post_start_kills']
-SHARD_TIMEOUT = {'quick': 1200, 'thorough': 3400}
+SHARD_TIMEOUT = {'quick': 3000, 'thorough': 7000}
 
 NSCEN = {'quick': 1, 'thorough': 6}
 NPARTS = {'quick': 16, 'thorough': 8}
@@ -398,12 +398,12 @@ def enumerate_points(spec, counts, sc, tier, seed):
     for kind in ('pre-exec', 'post-exec', 'pre-commit', 'post-commit'):
         for k in range(1, counts['n'][kind] + 1):
             pts.append({'mode': 'stmt', 'kind': kind, 'k': k})
-    step = 5 if tier == 'quick' else 1
+    step = 8 if tier == 'quick' else 1
     for name in sorted(sc):
         for k in range(1, sc[name] + 1, step):
             pts.append({'mode': 'sys', 'syscall': name, 'k': k})
     rng = random.Random(seed * 31 + 17)
-    ncall = 48 if tier == 'quick' else 250
+    ncall = 32 if tier == 'quick' else 250
     lo = counts.get('calls_at_start') or 1
     hi = max(lo + 1, counts['calls'])
     for _ in range(ncall):
@@ -453,7 +453,7 @@ def coverage_extra(tier, agg):
     c = agg['counters']
     return {'exhaustive': tier == 'thorough',
             'exhaustive_subspace': 'all pre/post execute and pre/post commit indices of the recorder connections; '
-                                   + ('every' if tier == 'thorough' else 'every 5th') +
+                                   + ('every' if tier == 'thorough' else 'every 8th') +
                                    ' entry index of each mutating syscall on the recorder files/journals; for %d '
                                    'scenario(s)' % NSCEN[tier],
             'kill_points_enumerated': c.get('obs:points_enumerated_in_scenario', 0)}
